@@ -55,23 +55,23 @@ func c03Rebuild(family, tier, choices string) (rep c03Replay, ok bool) {
 }
 
 // c03Exec runs one case under recover with the work sentinel armed and applies the oracle.
-func c03Exec(cs *world.Case, ans int, label string) (sig, detail string) {
+func c03Exec(cs *world.Case, ans int, label string) (sig, detail string, failed bool) {
 	probe := &startProbe{}
 	log := &hostLog{}
 	env := world.NewA(cs, world.AOpts{Tracer: probe, Host: scriptedHost(ans, log)})
 	env.DB.ReadLimit = c03ReadSentinel
-	_, _, _, _, p := env.Call(cs)
+	_, _, _, err, p := env.Call(cs)
 	if p != "" {
 		if world.IsSentinel(p) {
-			return "unbounded:" + label + ":state_reads", "execution exceeded the state-read sentinel (work sentinel): " + cs.Note
+			return "unbounded:" + label + ":state_reads", "execution exceeded the state-read sentinel (work sentinel): " + cs.Note, true
 		}
-		return "panic:" + label + ":" + normPanic(p), "entry point panicked: " + p + "\n" + cs.Note
+		return "panic:" + label + ":" + normPanic(p), "entry point panicked: " + p + "\n" + cs.Note, true
 	}
 	env.DB.ReadLimit = 0
 	if d := bookkeepingClosed(env, probe, cs.Fork); d != "" {
-		return "bookkeeping:" + label, d + "\n" + cs.Note
+		return "bookkeeping:" + label, d + "\n" + cs.Note, err != nil
 	}
-	return "", ""
+	return "", "", err != nil
 }
 
 func c03Bound(tier string) int {
@@ -171,7 +171,7 @@ func init() {
 				if family != "BYTES" {
 					w.MarkProgress(family + "\t" + w.Tier + "\t" + choicesText(ch))
 				}
-				sig, detail := c03Exec(cs, ans, label)
+				sig, detail, failed := c03Exec(cs, ans, label)
 				w.Evals++
 				w.Transitions++
 				w.Extra("cases_"+family, 1)
@@ -179,7 +179,7 @@ func init() {
 				w.State(h)
 				if sig != "" {
 					for i := 0; i < 4; i++ {
-						if s2, _ := c03Exec(cs, ans, label); s2 != sig {
+						if s2, _, _ := c03Exec(cs, ans, label); s2 != sig {
 							w.Notes = append(w.Notes, "HARNESS ERROR: C03 violation did not reproduce: "+cs.Note)
 							return
 						}
@@ -188,7 +188,9 @@ func init() {
 					w.Nontrivial(h)
 					return
 				}
-				w.Nontrivial(h) // every case exercises the crash oracle; error-ended frames are counted below
+				if failed {
+					w.Nontrivial(h)
+				}
 				if w.Evals%30011 == 0 {
 					w.Sample(map[string]any{"family": family, "note": cs.Note, "fork": cs.ForkName})
 				}
@@ -199,7 +201,7 @@ func init() {
 			if err := json.Unmarshal(raw, &rep); err != nil || rep.Case == nil {
 				panic(fmt.Sprint("bad replay case: ", err))
 			}
-			sig, detail := c03Exec(rep.Case, rep.Ans, rep.Label)
+			sig, detail, _ := c03Exec(rep.Case, rep.Ans, rep.Label)
 			if sig == "" {
 				return nil
 			}
